@@ -177,6 +177,23 @@ impl Property for C13 {
         v
     }
 
+    fn extra(&self, tier: Tier, seed: u64) -> ExtraResult<C13Case> {
+        let mut r = ExtraResult::default();
+        if tier != Tier::Thorough {
+            return r;
+        }
+        let seeds = vec![b"1.0~rc1\n1.0".to_vec(), b"1.0^git1\n1.0".to_vec(), b"0010a\n10b".to_vec(), b"a.b-c_d\na+b".to_vec()];
+        let c = fuzz::run(&fuzz::Campaign { target: "fz_vercmp", runs: 1_000_000, jobs: 8, max_len: 64, seeds }, seed);
+        r.fields = c.fields;
+        r.inconclusive = c.inconclusive;
+        for a in c.artifacts {
+            if let Ok(s) = String::from_utf8(a) {
+                let (x, y) = s.split_once('\n').unwrap_or((s.as_str(), ""));
+                r.cases.push(C13Case::Pair(x.to_string(), y.to_string()));
+            }
+        }
+        r
+    }
     fn check(&self, case: &C13Case) -> Outcome {
         let mut o = Outcome::new();
         let r = panics::catch(|| self.check_inner(case, &mut o));
